@@ -42,6 +42,14 @@ def build_env(name, opts, stack):
             env = W.ClipAction(env)
         elif w == "RescaleAction":
             env = W.RescaleAction(env, jnp.asarray(-3.0), jnp.asarray(5.0))
+        elif w == "RescaleObservation01":
+            env = W.RescaleObservation(env, jnp.asarray(0.0), jnp.asarray(1.0))
+        elif w == "RescaleObservationAsym":
+            env = W.RescaleObservation(env, jnp.asarray(-2.0), jnp.asarray(5.0))
+        elif w == "ClipReward":
+            env = W.ClipReward(env, jnp.asarray(-0.5), jnp.asarray(0.25))
+        elif w == "Identity":
+            env = W.Identity(env)
         elif w == "FlattenObservation":
             env = W.FlattenObservation(env)
         elif w == "ClipObservation":
@@ -200,7 +208,7 @@ OPTS = {
 def run(ctx: Ctx):
     ctx.rule = (
         "Every built-in environment (5 classic control, 11 MuJoCo, 3 Unitree G1) x constructor configurations x wrapper stacks "
-        "{bare, TimeLimit, ClipAction, RescaleAction, FlattenObservation, ClipObservation}: vmapped trajectories through the "
+        "{bare, TimeLimit, ClipAction, RescaleAction, FlattenObservation, ClipObservation, RescaleObservation (asymmetric targets), ClipReward, Identity}: vmapped trajectories through the "
         "Gym-style step inside one lax.scan with per-step action rules drawn per segment from {space sample, low corner, high "
         "corner, zero/middle, a held corner, energy pumping}; every observation must satisfy shape/dtype/bounds/NaN-freeness of the "
         "declared space (and the space's own contains), sampled actions are members, rewards finite float scalars, flags boolean "
@@ -213,6 +221,8 @@ def run(ctx: Ctx):
     for name in CLASSIC:
         is_box = name in ("ContinuousMountainCar", "Pendulum")
         stacks = [[], ["TimeLimit"]] + ([["ClipAction"], ["RescaleAction", "TimeLimit"]] if is_box else [["FlattenObservation", "ClipObservation"]])
+        if name != "CartPole":  # finite observation bounds: the rescaling wrapper applies
+            stacks += [["RescaleObservation01"]] + ([["ClipReward", "RescaleObservationAsym", "TimeLimit"], ["Identity", "RescaleObservation01", "ClipObservation"]] if not quick else [])
         cases = []
         for oi, opts in enumerate(OPTS[name][: 1 if quick else 3]):
             for si, stack in enumerate(stacks if (not quick or oi == 0) else stacks[:1]):
